@@ -52,9 +52,11 @@ def _library_frames(tb):
 def _exec_checked(profile, case, known):
     from . import simfs, lib
     ev0 = simfs.EVENTS[0]
+    sim0 = lib.SIM_SECONDS[0]
     try:
         import contextlib
         low = isinstance(case, dict) and case.get('low_memory')
+        simfs.DEFAULT_IO_LATENCY[0] = float(case.get('io_latency') or 0.0) if isinstance(case, dict) else 0.0
         with lib.knobs(dedup_chunk=case.get('dedup_chunk') if isinstance(case, dict) else None), \
                 (lib.low_memory() if low else contextlib.nullcontext()):
             if isinstance(case, dict) and case.get('exc_in_flight'):
@@ -65,11 +67,15 @@ def _exec_checked(profile, case, known):
                 res.probe('exception-in-flight')
             else:
                 res = profile.execute(case)
+        if simfs.DEFAULT_IO_LATENCY[0]:
+            res.probe('slow-storage')
+            res.fault('slow-io')
         if low:
             res.probe('low-memory')
             res.fault('address-space-limit')
         if not res.io_events:
             res.io_events = simfs.EVENTS[0] - ev0
+        res.sim_seconds = lib.SIM_SECONDS[0] - sim0
     except simfs.NoProgress as exc:
         from .core import Result
         from .compare import V
@@ -101,7 +107,7 @@ def run_batch(args):
     profile = load_profile(prop)
     known = findings_mod.load(prop)
     agg = {'start': start, 'n': 0, 'sigs': set(), 'nontrivial_sigs': set(), 'probes': {}, 'faults': {},
-           'io_events': 0, 'steps': 0, 'compared': 0, 'skipped_ops': 0, 'backends': {}, 'sub_evals': 0,
+           'io_events': 0, 'steps': 0, 'compared': 0, 'skipped_ops': 0, 'backends': {}, 'sub_evals': 0, 'sim_seconds': 0.0,
            'known': {}, 'violation': None, 'samples': [], 'digests': [], 'gen_s': 0.0, 'exec_s': 0.0,
            'first_seed': None, 'last_seed': None}
     for run in range(start, start + count):
@@ -134,7 +140,7 @@ def run_batch(args):
             agg['nontrivial_sigs'].add(s['sig'])
         merge_counts(agg['probes'], s['probes'])
         merge_counts(agg['faults'], s['faults'])
-        for k in ('io_events', 'steps', 'compared', 'skipped_ops', 'sub_evals'):
+        for k in ('io_events', 'steps', 'compared', 'skipped_ops', 'sub_evals', 'sim_seconds'):
             agg[k] += s[k]
         agg['backends'][s['backend']] = agg['backends'].get(s['backend'], 0) + 1
         for fid, _v in s['known']:
@@ -241,6 +247,10 @@ def make_case(profile, rng, run, tier):
         # the caller is in the middle of handling an unrelated exception (an except block, a finally or __exit__ that
         # runs because something is propagating): sys.exc_info() is not empty while the library works
         case['exc_in_flight'] = rng.random() < 0.08
+    if isinstance(case, dict) and 'io_latency' not in case:
+        # slow or stalling storage: every simulated read / write event takes this many seconds of simulated time (all clocks
+        # the code under test can read are simulated), so that anything which expires, times out or is measured does so
+        case['io_latency'] = rng.choice([0.4, 20.0, 700.0]) if rng.random() < 0.05 else 0.0
     if isinstance(case, dict) and 'low_memory' not in case:
         # the process is close to its address space limit (RLIMIT_AS = current size + 512 MiB): a failing allocation is
         # the fault; reading a file of a few KiB must not need memory in proportion to what its headers state
@@ -489,7 +499,7 @@ def main(argv=None):
                 prefix = [results[x] for x in starts if x <= s]
                 break
     tot = {'n': 0, 'sigs': set(), 'nontrivial_sigs': set(), 'probes': {}, 'faults': {}, 'backends': {}, 'known': {},
-           'io_events': 0, 'steps': 0, 'compared': 0, 'skipped_ops': 0, 'sub_evals': 0, 'gen_s': 0.0, 'exec_s': 0.0}
+           'io_events': 0, 'steps': 0, 'compared': 0, 'skipped_ops': 0, 'sub_evals': 0, 'gen_s': 0.0, 'exec_s': 0.0, 'sim_seconds': 0.0}
     samples = []
     digests = []
     first_seed = last_seed = None
@@ -499,7 +509,7 @@ def main(argv=None):
         tot['nontrivial_sigs'] |= r['nontrivial_sigs']
         for k in ('probes', 'faults', 'backends', 'known'):
             merge_counts(tot[k], r[k])
-        for k in ('io_events', 'steps', 'compared', 'skipped_ops', 'sub_evals', 'gen_s', 'exec_s'):
+        for k in ('io_events', 'steps', 'compared', 'skipped_ops', 'sub_evals', 'gen_s', 'exec_s', 'sim_seconds'):
             tot[k] += r[k]
         samples += r['samples']
         digests += r['digests']
@@ -631,8 +641,11 @@ def main(argv=None):
                 'seeds': {'base': base_seed, 'first_world_seed': first_seed, 'last_world_seed': last_seed,
                           'derivation': 'sha256("<base>:<property>:<tier>:<run>")[:8]'},
                 'sim_steps': tot['steps'], 'io_events': tot['io_events'],
-                'simulated_time': 'event sequence numbers only (nothing in nptdms reads a clock): %d I/O events, '
-                                  '%d scheduled actions' % (tot['io_events'], tot['steps']),
+                'simulated_time': '%d I/O events and %d scheduled actions in event order; every clock the code under test can '
+                                  'read (time.time / monotonic / perf_counter and their _ns forms) is simulated: %.0f simulated '
+                                  'seconds were let pass as think time, slow-storage latency and wall-clock steps (the pinned '
+                                  'tree reads a clock only to time debug log lines)' % (
+                                      tot['io_events'], tot['steps'], tot['sim_seconds']),
                 'sub_evaluations': tot['sub_evals'], 'compared_results': tot['compared'],
                 'faults_fired': tot['faults'], 'probes': dict(sorted(tot['probes'].items())),
                 'probes_never_hit': zero, 'backends': tot['backends'], 'real_vs_stub': REAL_VS_STUB,
